@@ -146,7 +146,7 @@ def judge(c, op, ps, ts, b, ln, report):
 
 # ------------------------------------------------------------------ histories: many presentations in one process
 HV = [1, 41, 42, 43, 44, 6]
-HVNAME = {1: "VerifyJwt", 41: "a LoginRequiredJSON endpoint", 42: "a LoginRequiredPathJSON endpoint", 43: "a LoginRequiredQuery endpoint",
+HVNAME = {10: "VerifyJwt (expiry check off)", 1: "VerifyJwt", 41: "a LoginRequiredJSON endpoint", 42: "a LoginRequiredPathJSON endpoint", 43: "a LoginRequiredQuery endpoint",
           44: "a LoginRequiredPathQuery endpoint", 6: "/token/info (caller = body token)"}
 
 
@@ -181,21 +181,21 @@ def judge_history(c, impl, ln, steps, toks, out, tag):
         nb, na = r[4], r[5]
         if kind == 1:
             continue
-        if kind in (2, 3):
+        if kind in (2, 3, 5):
             bad, first, got, rej = r[:4]
             if kind == 2:
                 n_bulk += a
             c.nontrivial((tag, "bulk", kind, a, b, n_bulk))
             if bad:
                 rep_ln, rep_step, rep_got = ln, k, " ".join(map(str, r))
-                small = "11|2 %d 1 3 1 %d|%s" % (n_bulk, b, " ".join(map(str, toks[0])))          # the same number of tokens and nothing else
+                small = "11|2 %d 1 %d 1 %d|%s" % (n_bulk, 5 if kind == 5 else 3, b, " ".join(map(str, toks[0])))          # the same number of tokens and nothing else
                 so = vf.run_impl(impl, "C16", [small], deadline_ms=120000)[0].split()
                 if len(so) == 14 and so[0] == "0" and int(so[8]) > 0:
                     rep_ln, rep_step, rep_got = small, 1, " ".join(so[8:14])
                 c.violation("token-answered-as-another-token",
                             "with %d distinct genuine access tokens (each of a user of its own) verified in one process, %d of them were answered as ANOTHER user / with another token's claims when presented%s at %s: "
-                            "token #%d (user w%06d) was answered as %s" % (n_bulk, bad, " again" if kind == 3 else "", HVNAME[b], first, first, "user w%06d" % got if got >= 0 else "a foreign user"),
-                            {"cases": [rep_ln], "step": rep_step, "full_history": ln, "step_meaning": "kind 2 = make a tokens and present each at verifier b; kind 3 = present every a-th of them again", "got": rep_got,
+                            "token #%d (user w%06d) was answered as %s" % (n_bulk, bad, " again" if kind == 3 else (" again by 8 goroutines at once" if kind == 5 else ""), HVNAME[b], first, first, "user w%06d" % got if got >= 0 else "a foreign user"),
+                            {"cases": [rep_ln], "step": rep_step, "full_history": ln, "step_meaning": "kind 2 = make a tokens and present each at verifier b; kind 3 = present every a-th of them again; kind 5 = the same by 8 goroutines of the process at once", "got": rep_got,
                              "expected": "bad = 0: every genuine token authenticates its own sub with its own exp / cli",
                              "replay_with": "printf '%s\\n' '<case>' | build/implrun C16    (answer: 0 now0, then per step: bad first got rejected nb na)"})
             ians.append("bulk-refused=%d" % rej)
@@ -297,6 +297,7 @@ def histories(c, impl, model, rng, thorough):
     for v in (1, 41, 42, 6, 43):
         steps += [(2, chunk, v)] + allp + [(3, 1, 1), (3, 1, 41), (3, 3, 44), (3, 5, 6)]
     steps += [(2, 7, 1), (3, 1, 43), (3, 1, 42)]
+    steps += [(5, 1, 1), (5, 1, 41), (5, 2, 43), (5, 3, 6), (5, 1, 10)]     # concurrent request handlers: 8 goroutines present the tokens at once
     more.append(("volume", hist_line(steps, toks), steps, toks))
     for h in range(40 if thorough else 10):
         toks = hist_pool(3600)
